@@ -33,9 +33,9 @@ claim("C18", "Lean 4 proof (loop invariant over the 4-byte steps, then the 2- an
       COMMON_NOTE + "A multi-byte load is modelled as the list of bytes it reads (word equality = byte-list equality on any endianness).",
       "DESIGN.md 7 C18")
 
-claim("C19", "Lean 4 proof (loop invariant of the rarest-two scan, for an arbitrary ranker function) + differential correspondence",
-      "Machine-checked theorems: for EVERY needle and EVERY ranker u8->u8, Pair::with_ranker returns normally, None iff the needle has < 2 bytes, otherwise distinct in-range offsets <= 254 (the unwrap()s and the assert_ne! are proved unreachable; the 255-byte window is re-checked against the constant regenerated from source); with_indices accepts exactly distinct in-range pairs; finders report the pair they were given.",
-      COMMON_NOTE + "Ranker modelled as a total pure function (a user ranker that panics or is impure is outside the model).",
+claim("C19", "Lean 4 proof (loop invariant of the rarest-two scan, for an arbitrary ranker, pure or with interior state) + differential correspondence",
+      "Machine-checked theorems: for EVERY needle and EVERY ranker u8->u8, Pair::with_ranker returns normally, None iff the needle has < 2 bytes, otherwise distinct in-range offsets <= 254 (the unwrap()s and the assert_ne! are proved unreachable; the 255-byte window is re-checked against the constant regenerated from source); with_indices accepts exactly distinct in-range pairs; finders report the pair they were given. with_ranker_impure: the same for rankers with interior state, modelled as an arbitrary state machine threaded through the rank calls in evaluation order.",
+      COMMON_NOTE + "A user ranker that panics is outside the model.",
       "DESIGN.md 7 C19")
 
 REST = {
